@@ -266,6 +266,27 @@ class MapO:
         return list(self.cols.keys()) == ['']
 
 
+class IMapO:
+    """dict keyed by the integers 0 .. n-1 (built over range(n)): vals is a z3 array Int -> sort.
+    vkind 'mat': the values are matrices (LSH hyperplanes);  vkind 'hashtab': the values are defaultdict(list) objects
+    keyed by floats, as a total function Real -> ISeq (a missing key is the empty list)."""
+    kind = 'imap'
+
+    def __init__(self, n, vals, vkind):
+        self.n = n
+        self.vals = vals
+        self.vkind = vkind
+
+
+class HashTabV(Val):
+    """the defaultdict(list) stored under key `k` of the IMapO at `loc` (a view: writes go through to the map)"""
+    tag = 'hashtab'
+
+    def __init__(self, loc, k):
+        self.loc = loc
+        self.k = k
+
+
 class ListO:
     """Python list of concrete length holding Vals."""
     kind = 'list'
